@@ -230,6 +230,24 @@ func c17ShapedFiles(shape string) (string, string) {
 		day(vZeroDay, 4)
 		day(3, 4)
 		day(5, 4)
+	case strings.HasPrefix(shape, "distinct:"): // N different foods nothing defines, in days of 256
+		n := 0
+		fmt.Sscanf(shape, "distinct:%d", &n)
+		for d, k := 0, 0; k < n; d++ {
+			lb.WriteString(vFmtDay(d, "") + ":\n")
+			for i := 0; i < 256 && k < n; i, k = i+1, k+1 {
+				fmt.Fprintf(&lb, "  item %d: %d\n", k, k%9+1)
+			}
+		}
+	case strings.HasPrefix(shape, "longday-then-excluded:"): // a day of N entries, then days the period (-e) leaves out
+		n := 0
+		fmt.Sscanf(shape, "longday-then-excluded:%d", &n)
+		if n%2 == 1 {
+			day(1, 3) // odd N: a short day first
+		}
+		day(3, n)
+		day(5, 4)
+		day(6, 2)
 	case strings.HasPrefix(shape, "rows:"):
 		n := 0
 		fmt.Sscanf(shape, "rows:%d", &n)
@@ -290,6 +308,9 @@ func checkC17CLI(c c17CLICase, ctx *vCtx) *vFailure {
 		args[i] = strings.ReplaceAll(strings.ReplaceAll(a, "@LOG@", lp), "@BOOK@", bp)
 	}
 	inv := vInvocation{Args: append([]string{"--today", vToday, "-d", bp, "-l", lp}, args...)}
+	if strings.HasPrefix(c.Shape, "longday-then-excluded:") {
+		inv.Args = append([]string{"-e", vFmtDay(3, "")}, inv.Args...)
+	}
 	if c.Shape == "period-none" {
 		// a period that holds no record: whatever the command still prints (a footer, a header, counts) must get through
 		inv.Args = append([]string{"-b", "2031/01/01"}, inv.Args...)
@@ -507,7 +528,8 @@ func c17CLISpace() []c17CLICase {
 			}
 		}
 		out = append(out, c17CLICase{Cmd: ci, Sink: "regular-file-size-limit", Big: true})
-		for _, shape := range []string{"one-food", "one-food-twice", "today-last", "today-first", "period-none", "epoch-last", "zero-first", "rows:255", "rows:256", "rows:257", "rows:65535", "rows:65536", "rows:65537"} {
+		for _, shape := range []string{"one-food", "one-food-twice", "today-last", "today-first", "period-none", "epoch-last", "zero-first", "rows:255", "rows:256", "rows:257", "rows:65535", "rows:65536", "rows:65537",
+			"distinct:1000", "distinct:1001", "distinct:1200", "distinct:5000", "longday-then-excluded:60", "longday-then-excluded:100", "longday-then-excluded:101", "longday-then-excluded:1000"} {
 			if strings.HasPrefix(shape, "rows:6") && !vThorough() && shape != "rows:65536" {
 				continue // quick: the exact power of two only
 			}
